@@ -97,6 +97,23 @@ func (rn *runner) addWith(tc *testCase, pre func()) {
 	}
 }
 
+// addPrepared queues a case whose implementation replies were already computed by the suite.
+func (rn *runner) addPrepared(tc *testCase) {
+	rn.rep.Evaluations++
+	if len(rn.rep.Samples) < 5 && len(tc.ops) > 0 {
+		rn.rep.Samples = append(rn.rep.Samples, map[string]interface{}{"ops": clip(tc.ops, 6), "impl": clip(tc.impl, 6)})
+	}
+	for i, want := range tc.expect {
+		if i < len(tc.impl) && tc.impl[i] != want {
+			rn.disagree(disagreement{Kind: "spec", Ops: tc.ops, At: i, Impl: tc.impl[i], Other: want, Note: tc.note})
+		}
+	}
+	rn.pending = append(rn.pending, tc)
+	if len(rn.pending) >= rn.batch {
+		rn.flush()
+	}
+}
+
 func clip(xs []string, n int) []string {
 	if len(xs) > n {
 		xs = xs[:n]
@@ -145,6 +162,10 @@ func (rn *runner) flush() {
 				if replies[k] != "outside" && replies[k] != tc.impl[i] {
 					rn.disagree(disagreement{Kind: "spec", Ops: tc.ops, At: i, Impl: tc.impl[i], Other: replies[k], Note: tc.note})
 				}
+				k++
+				continue
+			}
+			if strings.HasPrefix(tc.ops[i], "sched ") && strings.HasPrefix(replies[k], tc.impl[i]) {
 				k++
 				continue
 			}
